@@ -29,6 +29,7 @@ EXPLANATION = (
 def run(ctx: Ctx):
     ctx.attempt(move_bookkeeping, ctx)
     ctx.attempt(move_rejections, ctx)
+    ctx.attempt(moved_means_counted, ctx)
     ctx.attempt(partition, ctx)
     ctx.attempt(split, ctx)
     ctx.attempt(link_time, ctx)
@@ -194,6 +195,74 @@ def move_bookkeeping(ctx: Ctx, parts=ALL_PARTS):
         return False
     rules.rule_field_writers(ctx, "D1", "distance_traveled_km", pos_writer if False else (lambda s: "Vehicle.tick_distance_traveled_km / constructor" if s.func is not None and s.func.relpath.endswith("model/vehicle/vehicle.py") else None),
                              "distance_traveled_km is written only inside Vehicle", 1, owner_hint=owner)
+
+
+def _commits_param(repo, callee, pname: str, depth: int = 2) -> bool:
+    """`callee` writes the vehicle it is given as `pname` (or a modifier chain on it) into a simulation state: modify_vehicle(<state>, <that>)"""
+    aliases = {pname}
+    for _ in range(3):
+        for n in ast.walk(callee.node):
+            if isinstance(n, ast.Assign) and len(n.targets) == 1 and isinstance(n.targets[0], ast.Name):
+                b, _st = _chain(n.value)
+                if isinstance(b, ast.Name) and b.id in aliases:
+                    aliases.add(n.targets[0].id)
+    for n in ast.walk(callee.node):
+        if isinstance(n, ast.Call):
+            nm = n.func.attr if isinstance(n.func, ast.Attribute) else getattr(n.func, "id", "")
+            args = list(n.args) + [k.value for k in n.keywords]
+            if nm in ("modify_vehicle", "modify_vehicle_safe", "add_vehicle", "add_vehicle_safe"):
+                for a in args:
+                    b, _st = _chain(a)
+                    if isinstance(b, ast.Name) and b.id in aliases:
+                        return True
+            elif depth > 0:
+                c2 = repo.resolve_call(callee.module, n) or (callee.module.funcs.get(n.func.id) if isinstance(n.func, ast.Name) else None)
+                if c2 is not None and not isinstance(c2.node, ast.Lambda):
+                    ps = c2.params
+                    pairs = [(ps[i], a) for i, a in enumerate(n.args) if i < len(ps)] + [(k.arg, k.value) for k in n.keywords if k.arg in ps]
+                    for pn, a in pairs:
+                        b, _st = _chain(a)
+                        if isinstance(b, ast.Name) and b.id in aliases and _commits_param(repo, c2, pn, depth - 1):
+                            return True
+    return False
+
+
+def moved_means_counted(ctx: Ctx):
+    """Position and odometer move together, whoever writes the vehicle back: on every path of move(), a vehicle value on which
+    `modify_position` was applied and that is committed -- by move() itself or by a package function move() hands it to and that writes
+    its parameter into the state (the out-of-energy helper) -- also carries `tick_distance_traveled_km(<the traversal's distance>)`."""
+    fn = ctx.repo.func(VO, "move")
+    n = 0
+    for p in flow.paths(fn.node):
+        for e in p.events:
+            c = e.call
+            if not isinstance(c, ast.Call):
+                continue
+            nm = e.name
+            handed = []
+            if nm in ("modify_vehicle", "modify_vehicle_safe"):
+                handed = list(c.args[1:2]) + [k.value for k in c.keywords if k.arg in ("updated_vehicle", "vehicle")]
+            else:
+                callee = ctx.repo.resolve_call(fn.module, c) or (fn.module.funcs.get(c.func.id) if isinstance(c.func, ast.Name) else None)
+                if callee is None or isinstance(callee.node, ast.Lambda):
+                    continue
+                ps = callee.params
+                for pn, a in [(ps[i], a) for i, a in enumerate(c.args) if i < len(ps)] + [(k.arg, k.value) for k in c.keywords if k.arg in ps]:
+                    if any(isinstance(x, ast.Attribute) and x.attr == "modify_position" for x in ast.walk(a)) and _commits_param(ctx.repo, callee, pn):
+                        handed.append(a)
+            for a in handed:
+                base, steps = _chain(a)
+                names = [m for m, _c in steps]
+                if "modify_position" not in names:
+                    continue
+                n += 1
+                ok = "tick_distance_traveled_km" in names
+                ctx.check(ok, "D1", "DU.move", f"move(): the vehicle written back through {nm} with a new position has its odometer advanced too", fn, c,
+                          why_bad=f"`{flow.dump(a)[:200]}` is written into the state by {nm} with the position of the stretch driven but without tick_distance_traveled_km: "
+                                  f"the vehicle has changed place and its odometer (and the distance its move events sum to) has not",
+                          construct=f"move:moved-without-odometer:{nm}")
+    if n < 1:
+        ctx.soft_fail("move(): no committed vehicle with a new position found")
 
 
 def partition(ctx: Ctx, progress: bool = True):
